@@ -443,6 +443,7 @@ fn run_concurrent(s: &S15, ctx: &mut Ctx) -> Result<(), (String, Option<String>)
     ctx.ops += o.len() as u64 * (s.threads.iter().map(|t| t.len()).sum::<usize>() + s.snapshots) as u64;
     for h in o.iter() {
         ctx.sig(&[15, *h]);
+        ctx.ev(*h);
     }
     ctx.steps += o.len() as u64;
     *ctx.probes.entry("c15.schedules_executed").or_insert(0) += o.len() as u64;
@@ -617,8 +618,8 @@ impl Family for C15 {
 
     fn runs(t: Tier) -> u64 {
         match t {
-            Tier::Quick => 4_000,
-            Tier::Thorough => 200_000,
+            Tier::Quick => 30_000,
+            Tier::Thorough => 600_000,
         }
     }
 
